@@ -193,6 +193,29 @@ impl Core {
         self.take_open(r)
     }
 
+    /// open(true) together with a key pair on the same storage; the live instance is untouched
+    pub fn open_with_key_pair(&mut self) -> Value {
+        let d = self.disk.clone();
+        let before = d.ops();
+        let r = catch_unwind(AssertUnwindSafe(|| {
+            block_on(async {
+                let storage = d.storage().await;
+                HypercoreBuilder::new(storage)
+                    .key_pair(test_key_pair())
+                    .open(true)
+                    .build()
+                    .await
+            })
+        }));
+        let ops = self.disk.ops() - before;
+        match r {
+            Ok(Ok(_)) => json!({"t":"opened","ops":ops}),
+            Ok(Err(HypercoreError::BadArgument { .. })) => json!({"t":"badarg","ops":ops}),
+            Ok(Err(e)) => err_json(&e),
+            Err(p) => panic_json(p),
+        }
+    }
+
     pub fn subscribe(&mut self) {
         if let Some(hc) = &self.hc {
             self.subs.push(hc.event_subscribe());
